@@ -33,6 +33,9 @@ type App struct {
 	// FailAfterApply: commit number k (1-based) is applied and recorded as usual, but the call returns an error
 	// (what a proxy time-out looks like to babble: the application may well have applied the block)
 	FailAfterApply map[int]bool
+	// FailStateChange: OnStateChanged(s) returns an error the next FailStateChange[s] times (an application that
+	// cannot be notified)
+	FailStateChange map[state.State]int
 	StepFn    func() int
 }
 
@@ -125,5 +128,9 @@ func (a *App) RestoreHandler(snap []byte) ([]byte, error) {
 // StateChangeHandler implements proxy.ProxyHandler.
 func (a *App) StateChangeHandler(s state.State) error {
 	a.States = append(a.States, s)
+	if a.FailStateChange[s] > 0 {
+		a.FailStateChange[s]--
+		return fmt.Errorf("app: cannot take the state change to %s", s)
+	}
 	return nil
 }
